@@ -1160,6 +1160,168 @@ func scnTCP(t *testing.T, name string, arg string) {
 	synctest.Wait()
 }
 
+// ---------------------------------------------------------------- large frames (sizes at and beyond the 16-bit boundary)
+
+// frameOfLen encodes a message whose encoded form is exactly n bytes long (the payload is cut to fit).
+func frameOfLen(enc func(m *pool.Message) ([]byte, error), code codes.Code, token message.Token, path string, fill byte, n int) []byte {
+	pl := n - 32
+	if pl < 1 {
+		pl = 1
+	}
+	for i := 0; i < 12; i++ {
+		m := pool.NewMessage(context.Background())
+		m.SetCode(code)
+		m.SetToken(token)
+		m.SetMessageID(int32(20000 + i))
+		m.SetType(message.NonConfirmable)
+		if path != "" {
+			_ = m.SetPath(path)
+		}
+		m.SetContentFormat(message.AppOctets)
+		body := make([]byte, pl)
+		for k := range body {
+			body[k] = fill + byte(k%89)
+		}
+		m.SetBody(bytes.NewReader(body))
+		b, err := enc(m)
+		if err != nil {
+			panic(err)
+		}
+		if len(b) == n {
+			return append([]byte(nil), b...)
+		}
+		pl += n - len(b)
+		if pl < 1 {
+			break
+		}
+	}
+	panic(fmt.Sprintf("no frame of %d bytes", n))
+}
+
+// decode: a message decoded from n bytes keeps its content when the memory the bytes were received in is used for
+// the next message (a transport's read buffer is): what the holder of the message reads is the message's own.
+func scnDecode(t *testing.T, coder string, n int) {
+	var frame []byte
+	p := pool.New(64, 2048)
+	m := p.AcquireMessage(context.Background())
+	var err error
+	if coder == "udp" {
+		frame = frameOfLen(func(m *pool.Message) ([]byte, error) { return m.MarshalWithEncoder(udpcoder.DefaultCoder) }, codes.POST, message.Token{1, 2, 3, 4}, "/decode", 7, n)
+		_, err = m.UnmarshalWithDecoder(udpcoder.DefaultCoder, frame)
+	} else {
+		frame = frameOfLen(func(m *pool.Message) ([]byte, error) { return m.MarshalWithEncoder(tcpcoder.DefaultCoder) }, codes.POST, message.Token{1, 2, 3, 4}, "/decode", 7, n)
+		_, err = m.UnmarshalWithDecoder(tcpcoder.DefaultCoder, frame)
+	}
+	if err != nil {
+		pool.VerifTraceMark("note-decode-error", m)
+		p.ReleaseMessage(m)
+		return
+	}
+	end := hold(m)
+	for i := range frame {
+		frame[i] = 0xEE // the next message arrives in the same memory
+	}
+	end()
+	p.ReleaseMessage(m)
+}
+
+// jumbo: a frame of exactly n bytes on a tcp connection (block-wise off, MaxMessageSize 1 MiB): as a request that is
+// inside its handler (`req`) or as a response the caller of Get still holds (`resp`) while the connection goes on
+// receiving.  The peer pipelines: a small request, the frame, and the beginning of the next frame arrive in one write (so
+// the stream buffer of the session is not empty when the frame has been decoded); once the message is held, a long run of
+// further frames follows (more bytes than the stream buffer has room for, every frame handled at once).
+func scnJumboTCP(t *testing.T, n int, role string) {
+	var handler func(w *responsewriter.ResponseWriter[*tcpclient.Conn], r *pool.Message)
+	cc, peer, err := mem.NewTCPConn(mem.TCPOpts{Mutate: func(cfg *tcpclient.Config) {
+		cfg.GetToken = tokenSource
+		cfg.BlockwiseEnable = false
+		cfg.MaxMessageSize = 1 << 20
+		cfg.ReceivedMessageQueueSize = 2048 // requests that arrive while a handler runs wait here
+		cfg.Handler = func(w *responsewriter.ResponseWriter[*tcpclient.Conn], r *pool.Message) {
+			if handler != nil {
+				handler(w, r)
+			}
+		}
+	}})
+	if err != nil {
+		return
+	}
+	synctest.Wait()
+	peer.TakeFrames()
+	enc := func(m *pool.Message) ([]byte, error) { return m.MarshalWithEncoder(tcpcoder.DefaultCoder) }
+	const fill = 2048
+	prefix := frameOfLen(enc, codes.POST, message.Token{7, 7}, "/small", 55, 40)
+	if (len(prefix)+n)%fill == 0 {
+		prefix = frameOfLen(enc, codes.POST, message.Token{7, 7}, "/small", 55, 41)
+	}
+	var rest []byte
+	for i := 0; i < (2*n+140000)/fill; i++ {
+		rest = append(rest, frameOfLen(enc, codes.POST, message.Token{8, byte(i), byte(i >> 8)}, "/next", byte(131+i), fill)...)
+	}
+	first := func(frame []byte) []byte {
+		out := append(append([]byte(nil), prefix...), frame...)
+		return append(out, rest[:100]...)
+	}
+	switch role {
+	case "req":
+		inHandler := make(chan struct{})
+		goOn := make(chan struct{})
+		handler = func(rw *responsewriter.ResponseWriter[*tcpclient.Conn], r *pool.Message) {
+			if p, _ := r.Path(); p != "/first" {
+				return
+			}
+			done := hold(r)
+			close(inHandler)
+			<-goOn
+			done()
+		}
+		sent := make(chan struct{})
+		go func() {
+			defer close(sent)
+			_ = peer.Write(first(frameOfLen(enc, codes.POST, message.Token{1, 2, 3, 4}, "/first", 7, n)))
+			<-inHandler
+			_ = peer.Write(rest[100:])
+		}()
+		<-inHandler
+		synctest.Wait()
+		close(goOn)
+		<-sent
+		synctest.Wait()
+	case "resp":
+		ctx, cancel := context.WithTimeout(context.Background(), 5*time.Second)
+		defer cancel()
+		type res struct {
+			m   *pool.Message
+			err error
+		}
+		ch := make(chan res, 1)
+		go func() { m, err := cc.Get(ctx, "/big"); ch <- res{m, err} }()
+		synctest.Wait()
+		var tok message.Token
+		for _, fr := range peer.TakeFrames() {
+			m := pool.NewMessage(context.Background())
+			if _, err := m.UnmarshalWithDecoder(tcpcoder.DefaultCoder, fr); err == nil && m.Code() == codes.GET {
+				tok = append(message.Token(nil), m.Token()...)
+			}
+		}
+		go func() { _ = peer.Write(first(frameOfLen(enc, codes.Content, tok, "", 7, n))) }()
+		r := <-ch
+		if r.err == nil {
+			end := hold(r.m)
+			synctest.Wait()
+			_ = peer.Write(rest[100:])
+			synctest.Wait()
+			end()
+			cc.ReleaseMessage(r.m)
+		} else {
+			pool.VerifTraceMark("note-get-error", pool.NewMessage(ctx))
+		}
+	}
+	_ = cc.Close()
+	peer.Close()
+	synctest.Wait()
+}
+
 // ---------------------------------------------------------------- driver
 
 func runScenario(t *testing.T, f []string) (trace []string) {
@@ -1235,6 +1397,18 @@ func runScenario(t *testing.T, f []string) (trace []string) {
 			scnMixUDP(t, seed, n)
 		case "tcp:path", "tcp:do":
 			scnTCP(t, f[2], arg)
+		case "tcp:jumbo":
+			// scn tcp jumbo <frame length> <req|resp>
+			if len(f) >= 5 {
+				n, _ := strconv.Atoi(f[3])
+				scnJumboTCP(t, n, f[4])
+			}
+		case "pool:decode":
+			// scn pool decode <tcp|udp> <encoded length>
+			if len(f) >= 5 {
+				n, _ := strconv.Atoi(f[4])
+				scnDecode(t, f[3], n)
+			}
 		default:
 			pool.VerifTraceMark("bad-scenario", pool.NewMessage(context.Background()))
 		}
